@@ -59,6 +59,15 @@ def judge(case, query, pick):
         return False, f"no admissible split has positive gain (best exact gain {best}/{L}) but the code returns gain {pick['gain']!r} for {pick}", tuple(tags)
     match = [c for c in cands if (c["leaf"], c["f"], c["lt"], c["rt"]) == (pick["leaf"], pick["f"], pick["lt"], pick["rt"])
              and c["th"] == pick["th"]]
+    if not match and pick["gain"] <= 1e-9:
+        # no split returned although an admissible one has positive gain.  Known finding only when every candidate with
+        # a positive exact gain is a double-star one (their internal gain is wrong, see C08-dstar-undervalued)
+        pos = [b for b in cands if b["gain"] > 0]
+        tags = ["stops-with-positive-gain-available"]
+        if pos and all(b["kind"] == "dstar" for b in pos):
+            tags.append("dstar-undervalued")
+        return False, (f"find_best_split returns no split (gain {pick['gain']!r}) although {pos[0]} has exact gain "
+                       f"{pos[0]['gain']}/{L} > 0"), tuple(tags)
     if not match:
         return False, f"the code's pick {pick} is not an admissible candidate (best exact gain {best}/{L})", ("inadmissible",)
     c = match[0]
